@@ -27,7 +27,7 @@ import subprocess
 import sys
 import time
 
-from vf.core import REPO, EnumPart, HarnessError, HypPart, Oracle
+from vf.core import REPO, EnumPart, HarnessError, HypPart, Oracle, SkipCase
 
 ID = "C18"
 LEVEL = "fault_enumeration"
@@ -290,6 +290,8 @@ def start_children(case_dir: str, cache: str, cfgs: list, data_folder: str | Non
                              env=env, cwd=case_dir)
         procs.append((p, fo, fe))
     _CASE_NO[0] += 1
+    with open(os.path.join(_S["work"], "starts-%d.log" % os.getpid()), "a") as f:
+        f.write("%d\n" % n)
     t_end = time.time() + timeout
     if barrier:
         while time.time() < t_end:
@@ -576,7 +578,7 @@ def run_prefix(case, o: Oracle) -> None:
     kind, L = case["file"], int(case["prefix"])
     name, data = _golden(kind)
     if L > len(data):
-        raise HarnessError("prefix %d longer than the golden %s cache (%d)" % (L, kind, len(data)))
+        raise SkipCase()  # a committed replay made when the cache file was longer
     scratch = os.path.join(_S["work"], "cases", "prefix-%d.bin" % os.getpid())
     os.makedirs(os.path.dirname(scratch), exist_ok=True)
     with open(scratch, "wb") as f:
@@ -962,7 +964,7 @@ def _schedule_strategy():
 def _rendezvous_items(tier: str) -> list:
     items = []
     if tier == "quick":
-        states, top = ["data_truncated", "old_version_both"], 5
+        states, top = ["data_truncated", "old_version_both"], 4
     else:
         states, top = [s for s in SCHED_STATES if s != "warm"], 9
     for s in states:
@@ -1078,5 +1080,10 @@ def parts(ctx):
 
 def extra_coverage(ctx, rec) -> dict:
     g = _S.get("golden", {})
-    return {"cache_files": {k: {"name": v[0], "bytes": len(v[1])} for k, v in g.items()},
+    starts = 0
+    for fn in glob.glob(os.path.join(_S.get("work", "/nonexistent"), "starts-*.log")):
+        with open(fn) as f:
+            starts += sum(int(x) for x in f.read().split())
+    return {"interpreter_starts": starts,
+            "cache_files": {k: {"name": v[0], "bytes": len(v[1])} for k, v in g.items()},
             "queries_per_start": {k: len(v) for k, v in _S.get("queries", {}).items()}}
